@@ -26,6 +26,10 @@ postconditions of the callees (the open entry's `extra_field`, `data_start`, `he
 the `Sim` calculus does not carry).  The one arithmetic idealisation of this function itself is explicit in
 `CalleeSims.sf`: the preliminary data start satisfies `data_start + 4 < 2^64` (the source adds in checked `u64`,
 the model in `Nat`).
+
+SUPERSEDED as a statement by `Tie/AlignedDev.lean` (helper t6w5): `sim_start_file_aligned_at` discharges the
+callee hypotheses (no `CalleeSims`) on every run that satisfies a position bound; this file keeps the relative
+theorem and the arithmetic lemmas / tactics both proofs share.
 -/
 set_option linter.unusedSimpArgs false
 set_option linter.unusedSectionVars false
